@@ -139,6 +139,17 @@ func judge(scratch, dataDir string, k int, label string, p Plan, images map[ref.
 			pt.OpenErr = "newest ltx file in the image does not verify: " + err.Error()
 		}
 	}
+	if os.Getenv("VERIF_DEBUG") != "" {
+		dbb, _ := os.ReadFile(filepath.Join(img, "dbs", name, "database"))
+		wb, _ := os.ReadFile(filepath.Join(img, "dbs", name, "wal"))
+		sc := ref.WALScan(wb)
+		ents, _ := os.ReadDir(filepath.Join(img, "dbs", name, "ltx"))
+		var names []string
+		for _, e := range ents {
+			names = append(names, e.Name())
+		}
+		fmt.Fprintf(os.Stderr, "DEBUG point %d %q: database %d bytes, wal %d bytes (header ok %v, valid frames %d, last commit %d, salts %08x/%08x), ltx %v\n", k, label, len(dbb), len(wb), sc.HeaderOK, len(sc.Valid), sc.LastCommit, sc.Salt1, sc.Salt2, names)
+	}
 	var n *node.Node
 	func() {
 		defer func() {
@@ -164,6 +175,13 @@ func judge(scratch, dataDir string, k int, label string, p Plan, images map[ref.
 	pt.Image = res.Image
 	if pt.Image == nil {
 		pt.Image = ref.NewImage(p.PageSize)
+	}
+	// (The database is as long as its header says. A checkpoint copies every frame of the
+	// log, also frames for pages beyond the size a later transaction committed - SQLite
+	// leaves such frames behind when a transaction shrinks the database after a cache
+	// spill -, so the file can be longer until the next truncation; SQLite ignores the rest.)
+	if hp := ref.HeaderPageN(pt.Image.Page(1)); hp > 0 && hp < pt.Image.N() {
+		pt.Image.Resize(hp)
 	}
 	// nothing may be left for SQLite to replay
 	if b, err := os.ReadFile(filepath.Join(img, "dbs", name, "journal")); err == nil && len(b) >= 8 && bytes.Equal(b[:8], []byte{0xd9, 0xd5, 0x05, 0xf9, 0x20, 0xa1, 0x63, 0xd7}) {
@@ -357,6 +375,25 @@ func runPlan(c *pbt.Case, p Plan) {
 		conn.OnOp = nil
 		aborted := model.Img // the model may have been advanced by a completed transaction
 		conn.Close()
+		// (In WAL mode a transaction is committed once its commit frame is in the log; the
+		// simulator books it when the release of the write lock has returned. A client that
+		// dies in between leaves a committed transaction, which LiteFS publishes when the
+		// kernel releases the dead client's locks: what the log holds decides.)
+		if p.Mode == pager.WAL {
+			if li, err := ref.LogicalImage(n.DBDir(name)); err == nil && li != nil && li.N() > 0 {
+				if hp := ref.HeaderPageN(li.Page(1)); hp > 0 && hp < li.N() {
+					li.Resize(hp)
+				}
+				if li.Diff(aborted) != "" {
+					c.Label("client-died-between-commit-frame-and-unlock")
+					aborted = li
+					model.Img = li.Clone()
+					if pg := li.Page(1); len(pg) > 28 {
+						model.Change = uint32(pg[24])<<24 | uint32(pg[25])<<16 | uint32(pg[26])<<8 | uint32(pg[27])
+					}
+				}
+			}
+		}
 		// What the dead client left behind decides the recovered state: committed or not.
 		images[n.Pos(name)] = aborted.Clone()
 		pre, preImg = n.Pos(name), nil
